@@ -63,12 +63,82 @@ def run(chk: Check, drv: Driver):
                     chk.count("problem_" + kind)
                     chk.violation(f"{kind} kernel: {what}", pr.case(sizes, ins, capacity=cap, kernel=kind))
     chk.count("cases", total)
+    zero_dimension_overflow(chk, drv)
     if not quick:
         large_allocation(chk)
     chk.assumptions += [
         "the kernels' text is executed by the IR machine, not by hardware; gcc/LLVM code generation is C06's concern",
         "allocation sizes up to 2^20 elements; the >= 2^29-element LLVM size arithmetic (F9) is outside machine replay",
     ]
+
+
+def zero_dimension_overflow(chk: Check, drv: Driver):
+    """finding F16 (found by the Lean theorem `denseN_prod_bound_insufficient`): a dense tensor with dimensions
+    (65536, 65536, 0) has 0 elements - its element count fits int32 - yet the kernel multiplies the dimensions left to
+    right (`capacity = d0 * d1 * d2`, outer position arithmetic), and 65536 * 65536 overflows int32 before the zero is
+    reached. On the machine the evaluate kernel of the witness stops with intOverflow in its prologue; the emitted C,
+    compiled with -fsanitize=signed-integer-overflow, reports the same multiplication (thorough tier)."""
+    from ..gen import parse_fmt
+
+    pr = kruns.Prepared("a(i,j,k) = b(i,j,k)", {"a": parse_fmt("ddd"), "b": parse_fmt("ddd")})
+    if pr.problem is None or not pr.generate():
+        return
+    sizes = {"i": 65536, "j": 65536, "k": 0}
+    ins = {"b": ({}, (65536, 65536, 0))}
+    rep = drv.batch([kernels.exec_request(pr.func("evaluate"), pr.heap(sizes, ins), 10)])[0]
+    mr = kernels.MachineResult(rep)
+    chk.count("zero_dimension_witness_runs")
+    case = pr.case(sizes, ins, kernel="evaluate")
+    if (not mr.ok) and mr.err == "intOverflow":
+        f = chk.match_known(lambda f: f.get("signature", {}).get("predicate") == "zero-dimension-prefix-product-overflow")
+        if f:
+            chk.known(f["id"], f["what"])
+        else:
+            chk.violation("int32 overflow in a kernel whose tensors have 0 elements (dimensions 65536 x 65536 x 0)", case)
+    elif not mr.ok and mr.err != "fuel":
+        chk.violation(f"evaluate kernel fails on the zero-dimension witness: {mr.err}", case)
+    if chk.tier == "thorough":
+        zero_dimension_ubsan(chk, pr)
+
+
+UBSAN_MAIN = r"""
+#include <stdio.h>
+int main(){
+  int32_t dims[3]={65536,65536,0}; int32_t ord[3]={0,1,2}; taco_mode_t mt[3]={taco_mode_dense,taco_mode_dense,taco_mode_dense};
+  int32_t** ind[3]={0,0,0}; double bv[1]={0};
+  taco_tensor_t A={3,dims,ord,mt,(int32_t***)ind,0}; taco_tensor_t B={3,dims,ord,mt,(int32_t***)ind,bv};
+  int r=evaluate(&A,&B); printf("ret %d\n",r); return 0; }
+"""
+
+
+def zero_dimension_ubsan(chk: Check, pr):
+    import tempfile
+
+    from tensora.compile._cffi_ownership import taco_type_header
+    from tensora.compile._compile_cffi import taco_define_header
+    from tensora.generate import Language, generate_code
+    from tensora.kernel_type import KernelType
+
+    code = generate_code(pr.problem, [KernelType.evaluate], Language.c).unwrap()
+    with tempfile.TemporaryDirectory(prefix="verif_c05_ubsan_") as td:
+        src = os.path.join(td, "k.c")
+        open(src, "w").write("#include <stdint.h>\n#include <stdlib.h>\n" + taco_define_header + taco_type_header.replace("void free(void *ptr);", "") + "\n" + code + "\n" + UBSAN_MAIN)
+        r = subprocess.run(["gcc", "-O0", "-fsanitize=signed-integer-overflow", "-fno-sanitize-recover=all", src, "-o", os.path.join(td, "k")], capture_output=True, text=True)
+        if r.returncode != 0:
+            chk.count("ubsan_compile_failed")
+            return
+        try:
+            r = subprocess.run([os.path.join(td, "k")], capture_output=True, text=True, timeout=60)
+            out = r.stdout + r.stderr
+        except subprocess.TimeoutExpired:
+            out = "timeout"
+        chk.count("ubsan_replay_runs")
+        if "signed integer overflow" in out:
+            f = chk.match_known(lambda f: f.get("signature", {}).get("predicate") == "zero-dimension-prefix-product-overflow")
+            if f:
+                chk.known(f["id"], f["what"])
+            else:
+                chk.violation("UBSan: signed integer overflow in the emitted C on tensors with 0 elements", {"assignment": pr.text, "dims": [65536, 65536, 0]}, got=out[:300])
 
 
 LARGE = r"""
